@@ -22,8 +22,9 @@ from concurrent.futures import ThreadPoolExecutor
 VERIF = os.path.dirname(os.path.dirname(os.path.abspath(__file__)))
 REPO = "/repo"
 SCR = "/tmp/gtv_mut"
-FILES = ["factor.py", "measure.py", "pdf.py", "conditional.py", "approximate_conditional.py", "utils/linalg.py",
-         "experimental/truncated_measure.py"]
+FILES = os.environ.get("GTV_MUT_FILES", "").split(",") if os.environ.get("GTV_MUT_FILES") else \
+    ["factor.py", "measure.py", "pdf.py", "conditional.py", "approximate_conditional.py", "utils/linalg.py",
+     "experimental/truncated_measure.py"]
 LETTERS = "abcdefghijklmnopqrstuvwxyz"
 
 
@@ -159,6 +160,15 @@ def _edits_for(fn_node, src_lines):
             if g in rep:
                 pos = node.left.end_col_offset + gap.index(g)
                 yield (node.lineno, pos, pos + len(g), rep[g], f"comparison {g} -> {rep[g]}")
+        if isinstance(node, ast.Compare) and len(node.ops) == 1 and node.lineno == node.end_lineno \
+                and isinstance(node.ops[0], (ast.In, ast.NotIn, ast.Is, ast.IsNot)):
+            gap = src_lines[node.lineno - 1][node.left.end_col_offset:node.comparators[0].col_offset]
+            rep = {"in": "not in", "not in": "in", "is": "is not", "is not": "is"}
+            g = " ".join(gap.split())
+            if g in rep:
+                yield (node.lineno, node.left.end_col_offset, node.comparators[0].col_offset, " " + rep[g] + " ", f"comparison {g} -> {rep[g]}")
+        if isinstance(node, ast.Constant) and isinstance(node.value, bool) and node.lineno == node.end_lineno:
+            yield (node.lineno, node.col_offset, node.end_col_offset, str(not node.value), f"constant {node.value} -> {not node.value}")
         if isinstance(node, ast.Slice) and getattr(node, "lineno", None) and node.lineno == node.end_lineno:
             if node.lower is not None and node.upper is None and node.step is None:
                 lo = src_lines[node.lineno - 1][node.lower.col_offset:node.lower.end_col_offset]
